@@ -326,6 +326,10 @@ def lin(t):
     if k == "c":
         return Lin(t[1])
     if k == "zext":
+        inner = strip(t)
+        if isinstance(inner, tuple) and inner and term_type(inner) is None and t[2] in U_MAX:
+            # remember the source type of the zero-extension: it bounds an otherwise untyped atom (e.g. a call result)
+            _ZEXT_HINT[inner] = t[2]
         return lin(t[1])
     if k == "bin":
         op = t[1]
@@ -377,6 +381,7 @@ def strip(t):
     return t
 
 
+_ZEXT_HINT = {}
 U_MAX = {"u8": 2**8 - 1, "u16": 2**16 - 1, "u32": 2**32 - 1, "u64": 2**64 - 1, "usize": 2**64 - 1, "bool": 1}
 
 
@@ -437,6 +442,8 @@ def atom_range(a):
     if k == "align_offset":
         return (0, 2**64 - 1)
     ty = term_type(a)
+    if ty is None:
+        ty = _ZEXT_HINT.get(a)
     if ty in U_MAX:
         return (0, U_MAX[ty])
     if k == "discr":
